@@ -249,6 +249,13 @@ func c02Overlap(c *core.Ctx, r *core.Reporter) {
 			r.Unknown("overlap/"+n, token.NoPos, "function not found")
 			return
 		}
+		// the step table talks about parameters by their pinned position: every one of them must still exist
+		for i := range f.Params {
+			if _, ok := c.ArgIndex(f, i); !ok {
+				r.Unknown("overlap/"+n, f.Pos(), "the signature of %s changed in a way the step table cannot follow (parameters bundled or dropped): re-confirm steps A–J against the new signature", f.Name())
+				return
+			}
+		}
 	}
 	// helpers ------------------------------------------------------------
 	// namesBase: v is an element of X.fragmentNames -> returns X
@@ -299,7 +306,23 @@ func c02Overlap(c *core.Ctx, r *core.Reporter) {
 		}
 		return nil
 	}
-	param := func(f *ssa.Function, i int) ssa.Value { return f.Params[i] }
+	// positions are those of the pinned signatures; they follow the parameter names when a signature is reordered
+	param := func(f *ssa.Function, i int) ssa.Value {
+		if j, ok := c.ArgIndex(f, i); ok && j < len(f.Params) {
+			return f.Params[j]
+		}
+		return nil
+	}
+	argOf := func(call *ssa.Call, i int) ssa.Value {
+		if call == nil {
+			return nil
+		}
+		if j, ok := c.ArgIndex(call.Call.StaticCallee(), i); ok && j < len(call.Call.Args) {
+			return call.Call.Args[j]
+		}
+		return nil
+	}
+	_ = argOf
 	sites := func(caller, callee *ssa.Function) []*ssa.Call {
 		var out []*ssa.Call
 		for _, ci := range core.CallsTo(caller, callee, false) {
@@ -315,12 +338,12 @@ func c02Overlap(c *core.Ctx, r *core.Reporter) {
 		if call == nil {
 			return false
 		}
-		fcall := isCallTo(call.Call.Args[1], fragFn)
-		return fcall != nil && fcall.Call.Args[1] == nameParam
+		fcall := isCallTo(argOf(call, 1), fragFn)
+		return fcall != nil && argOf(fcall, 1) == nameParam
 	}
 	fieldsOfSel := func(v ssa.Value, selParam ssa.Value) bool {
 		call := isCallTo(v, gf)
-		return call != nil && call.Call.Args[2] == selParam
+		return call != nil && argOf(call, 2) == selParam
 	}
 	check := func(step string, ok bool, pos token.Pos, good, bad string) {
 		r.Check(ok, step, pos, good, "overlap algorithm step "+step+": "+bad+" — conflicts on some fragment topology are never compared (conflicting documents accepted) ")
@@ -329,13 +352,29 @@ func c02Overlap(c *core.Ctx, r *core.Reporter) {
 	{
 		fi := sites(within, gf)
 		a := sites(within, cw)
-		check("A", len(fi) == 1 && len(a) == 1 && a[0].Call.Args[2] == ssa.Value(fi[0]), within.Pos(),
+		okA := len(fi) == 1 && len(a) == 1 && argOf(a[0], 2) == ssa.Value(fi[0])
+		if cw == within && len(fi) == 1 {
+			// collectConflictsWithin has been inlined here: the pairwise comparison itself (findConflict in nested loops over
+			// the field map of this selection set's own fields) must be in this function
+			for _, call := range sites(within, fc) {
+				n := 0
+				for _, l := range core.Loops(within) {
+					if l[call.Block()] {
+						n++
+					}
+				}
+				if n >= 2 {
+					okA = true
+				}
+			}
+		}
+		check("A", okA, within.Pos(),
 			"the selection set's own fields are compared within themselves", "collectConflictsWithin is not applied to the fields of the visited selection set")
 		b := sites(within, ff)
 		okB := len(b) == 1 && len(fi) == 1
 		if okB {
-			okB = b[0].Call.Args[3] == ssa.Value(fi[0]) && namesBase(b[0].Call.Args[4]) == ssa.Value(fi[0]) && core.InAnyLoop(b[0].Block())
-			if cst, isC := b[0].Call.Args[2].(*ssa.Const); !isC || cst.Value.String() != "false" {
+			okB = argOf(b[0], 3) == ssa.Value(fi[0]) && namesBase(argOf(b[0], 4)) == ssa.Value(fi[0]) && core.InAnyLoop(b[0].Block())
+			if cst, isC := argOf(b[0], 2).(*ssa.Const); !isC || cst.Value.String() != "false" {
 				okB = false
 			}
 		}
@@ -344,7 +383,7 @@ func c02Overlap(c *core.Ctx, r *core.Reporter) {
 		cc := sites(within, frfr)
 		okC := len(cc) == 1 && len(fi) == 1
 		if okC {
-			okC = namesBase(cc[0].Call.Args[3]) == ssa.Value(fi[0]) && namesBase(cc[0].Call.Args[4]) == ssa.Value(fi[0]) && cc[0].Call.Args[3] != cc[0].Call.Args[4]
+			okC = namesBase(argOf(cc[0], 3)) == ssa.Value(fi[0]) && namesBase(argOf(cc[0], 4)) == ssa.Value(fi[0]) && argOf(cc[0], 3) != argOf(cc[0], 4)
 			// nested loops
 			n := 0
 			for _, l := range core.Loops(within) {
@@ -360,13 +399,13 @@ func c02Overlap(c *core.Ctx, r *core.Reporter) {
 	{
 		flag, fields, name := param(ff, 2), param(ff, 3), param(ff, 4)
 		d := sites(ff, cb)
-		okD := len(d) == 1 && d[0].Call.Args[2] == flag && d[0].Call.Args[3] == fields && referencedOf(d[0].Call.Args[4], name)
+		okD := len(d) == 1 && argOf(d[0], 2) == flag && argOf(d[0], 3) == fields && referencedOf(argOf(d[0], 4), name)
 		check("D", okD, ff.Pos(), "original fields vs the fields of the referenced fragment", "collectConflictsBetween is not called with (the given fields, the referenced fragment's fields, the given exclusivity)")
 		e := sites(ff, ff)
 		okE := len(e) == 1
 		if okE {
-			base := namesBase(e[0].Call.Args[4])
-			okE = e[0].Call.Args[2] == flag && e[0].Call.Args[3] == fields && base != nil && referencedOf(base, name) && core.InAnyLoop(e[0].Block())
+			base := namesBase(argOf(e[0], 4))
+			okE = argOf(e[0], 2) == flag && argOf(e[0], 3) == fields && base != nil && referencedOf(base, name) && core.InAnyLoop(e[0].Block())
 		}
 		pos := ff.Pos()
 		if len(e) > 0 {
@@ -379,21 +418,21 @@ func c02Overlap(c *core.Ctx, r *core.Reporter) {
 	{
 		flag, n1, n2 := param(frfr, 2), param(frfr, 3), param(frfr, 4)
 		f := sites(frfr, cb)
-		okF := len(f) == 1 && f[0].Call.Args[2] == flag && referencedOf(f[0].Call.Args[3], n1) && referencedOf(f[0].Call.Args[4], n2)
+		okF := len(f) == 1 && argOf(f[0], 2) == flag && referencedOf(argOf(f[0], 3), n1) && referencedOf(argOf(f[0], 4), n2)
 		check("F", okF, frfr.Pos(), "fields of fragment 1 vs fields of fragment 2", "the two fragments' own fields are not compared with each other")
 		gs := sites(frfr, frfr)
 		g1, g2 := false, false
 		for _, g := range gs {
-			if g.Call.Args[2] != flag || !core.InAnyLoop(g.Block()) {
+			if argOf(g, 2) != flag || !core.InAnyLoop(g.Block()) {
 				continue
 			}
-			if g.Call.Args[3] == n1 {
-				if b := namesBase(g.Call.Args[4]); b != nil && referencedOf(b, n2) {
+			if argOf(g, 3) == n1 {
+				if b := namesBase(argOf(g, 4)); b != nil && referencedOf(b, n2) {
 					g1 = true
 				}
 			}
-			if g.Call.Args[4] == n2 {
-				if b := namesBase(g.Call.Args[3]); b != nil && referencedOf(b, n1) {
+			if argOf(g, 4) == n2 {
+				if b := namesBase(argOf(g, 3)); b != nil && referencedOf(b, n1) {
 					g2 = true
 				}
 			}
@@ -405,22 +444,22 @@ func c02Overlap(c *core.Ctx, r *core.Reporter) {
 	{
 		flag, s1, s2 := param(sub, 1), param(sub, 3), param(sub, 5)
 		h := sites(sub, cb)
-		okH := len(h) == 1 && h[0].Call.Args[2] == flag && fieldsOfSel(h[0].Call.Args[3], s1) && fieldsOfSel(h[0].Call.Args[4], s2)
+		okH := len(h) == 1 && argOf(h[0], 2) == flag && fieldsOfSel(argOf(h[0], 3), s1) && fieldsOfSel(argOf(h[0], 4), s2)
 		check("H", okH, sub.Pos(), "fields of the first sub-selection vs fields of the second", "the two sub-selections' fields are not compared")
 		is := sites(sub, ff)
 		i1, i2 := false, false
 		for _, i := range is {
-			if i.Call.Args[2] != flag || !core.InAnyLoop(i.Block()) {
+			if argOf(i, 2) != flag || !core.InAnyLoop(i.Block()) {
 				continue
 			}
-			b := namesBase(i.Call.Args[4])
+			b := namesBase(argOf(i, 4))
 			if b == nil {
 				continue
 			}
-			if fieldsOfSel(i.Call.Args[3], s1) && fieldsOfSel(b, s2) {
+			if fieldsOfSel(argOf(i, 3), s1) && fieldsOfSel(b, s2) {
 				i1 = true
 			}
-			if fieldsOfSel(i.Call.Args[3], s2) && fieldsOfSel(b, s1) {
+			if fieldsOfSel(argOf(i, 3), s2) && fieldsOfSel(b, s1) {
 				i2 = true
 			}
 		}
@@ -429,8 +468,8 @@ func c02Overlap(c *core.Ctx, r *core.Reporter) {
 		js := sites(sub, frfr)
 		okJ := len(js) == 1
 		if okJ {
-			b1, b2 := namesBase(js[0].Call.Args[3]), namesBase(js[0].Call.Args[4])
-			okJ = js[0].Call.Args[2] == flag && b1 != nil && b2 != nil && fieldsOfSel(b1, s1) && fieldsOfSel(b2, s2)
+			b1, b2 := namesBase(argOf(js[0], 3)), namesBase(argOf(js[0], 4))
+			okJ = argOf(js[0], 2) == flag && b1 != nil && b2 != nil && fieldsOfSel(b1, s1) && fieldsOfSel(b2, s2)
 			n := 0
 			for _, l := range core.Loops(sub) {
 				if l[js[0].Block()] {
@@ -443,12 +482,15 @@ func c02Overlap(c *core.Ctx, r *core.Reporter) {
 	}
 	// findConflict descends into sub-selections with the computed exclusivity
 	{
-		cs := sites(fc, sub)
+		var cs []*ssa.Call
+		for _, g := range c.Region(fc) { // findConflict or a phase split off it
+			cs = append(cs, sites(g, sub)...)
+		}
 		ok := len(cs) == 1
 		if ok {
 			// flag argument is not the raw parameter alone: it must include the parent-type test (a phi / binop)
-			_, isParam := cs[0].Call.Args[1].(*ssa.Parameter)
-			ok = !isParam && core.HasClass(cs[0].Call.Args[3], "field:Field.SelectionSet") && core.HasClass(cs[0].Call.Args[5], "field:Field.SelectionSet") && cs[0].Call.Args[3] != cs[0].Call.Args[5]
+			onlyParam, _ := core.OnlyClasses(argOf(cs[0], 1), "param:bool")
+			ok = !onlyParam && core.HasClass(argOf(cs[0], 3), "field:Field.SelectionSet") && core.HasClass(argOf(cs[0], 5), "field:Field.SelectionSet") && argOf(cs[0], 3) != argOf(cs[0], 5)
 		}
 		check("findConflict->sub-selections", ok, fc.Pos(), "both fields' sub-selections are compared under the computed mutual exclusivity",
 			"findConflict does not compare the two fields' own sub-selections with the exclusivity computed from the parent types")
